@@ -300,7 +300,7 @@ func (x *Exec) builtin(name string, args []Value, c *ssa.CallCommon) Value {
 		}
 		return args[0]
 	}
-	x.Unsupported("builtin %s(%T...)", name, args[0])
+	x.Unsupported("builtin %s with %d arguments", name, len(args))
 	return nil
 }
 
